@@ -694,7 +694,7 @@ def _gen_cases(rng, mode):
     elif mode == "thorough":
         rounds, lengths, nseq, maxlen, budget, cap = 4, _LEN_QUICK + _LEN_MORE, 4, 200, 200_000_000, 300
         n_random, n_tuned, n_mal, tiny_rounds = 220, 40, 300, 2
-        n_mid, n_big, n_trail = 60, 10, 160  # (120 / 24 / 240 made the thorough tier run > 30 min: the model driver dominates)
+        n_mid, n_big, n_trail = 30, 6, 90  # (120 / 24 / 240, then 60 / 10 / 160, made the thorough tier run > 30 min under load: the model driver dominates)
     else:
         rounds, lengths, nseq, maxlen, budget, cap = 7, _LEN_QUICK + _LEN_MORE[:9], 4, 60, 80_000_000, 64
         n_random, n_tuned, n_mal, tiny_rounds = 200, 36, 300, 3
